@@ -3,7 +3,7 @@ from checks.gdscommon import same, nontrivial, classify  # noqa
 CONFIG = {
     "manifest": {'level_text': "Coq theorem gds_roundtrip (closed under the global context): for EVERY well-formed library on the database grid (any number of cells, polygons of any length incl. multi-record XY, simple paths with every end type, references incl. AREF lattices with reflection / rotation, labels, GDSII properties) read_gds_model (write_gds_model L) = canon L, where the reader model mirrors the full record switch of read_gds with its mutable state and the writer model mirrors Library::write_gds / Cell::to_gds / the element writers / properties_to_gds; framing, field codecs (big-endian two's complement, byte swapping by data type), string padding, the closing vertex and property order are all inside the theorem. Both models are tied to /repo on every run: writer bytes compared byte for byte with Library::write_gds, reader dumps compared with read_gds, record codes regenerated from gdsii.hpp; and the property itself is decided on the implementation by a round-trip oracle (load(save L) = canon L, units kept, second cycle stable).", 'level_note': 'Repetition expansion, rounding to the grid and the AREF-or-SREFs decision of Reference::to_gds are modelled in coq/GdsLower.v (over exact rationals; rotation enters as an exact (cos, sin) pair, the 1e-12 parallelism test is evaluated exactly on squared quantities) with lower_roundtrip, the count and denotation theorems of Properties_C01L.v; three clauses are refuted there and recorded as known findings (AREF corners rounded instead of instances when the lattice is off the grid, a skew below the parallelism tolerance lost in an AREF, COLROW above 32767 written unsigned and read signed); MAG/ANGLE are carried as 8-byte real patterns (C19). canon reverses the property list order (the reader prepends). Non-simple paths and vertex limits are decided under C07/C08/C12.', 'technique': 'Coq round-trip theorem over Gallina models of the GDSII reader and writer + byte-for-byte / dump-for-dump differential run + round-trip oracle'},
     "prop_file": "Properties_C01",
-    "extra_prop_files": ["Properties_C01L"],   # lowering model (GdsLower.v): repetition expansion, AREF-or-SREFs decision, rounding to the grid
+    "extra_prop_files": ["Properties_C01L", "Properties_C01G"],   # lowering model (GdsLower.v): repetition expansion, AREF-or-SREFs decision, rounding to the grid
     "units": [
         {"harness": "gds", "driver": "gds", "extracted": ["gds"], "extract_file": "Extract_Gds", "kinds": "wr,rd,rt,gw"},
         # records written by Library::write_gds for elements WITH repetitions, off-grid coordinates, rotated references versus
@@ -11,6 +11,9 @@ CONFIG = {
         {"harness": "c01_lower", "driver": "c01_lower", "extracted": ["c01_lower"], "extract_file": "Extract_C01_lower", "module": "checks.c01_lower", "thorough_seeds": 1},
         # PATH records of non-trivial paths: the C07 / C08 harnesses' `gds` cases (a simple FlexPath / RobustPath element written by
         # write_gds and re-loaded must keep centre line, width (incl. width_scale after magnification) and end type)
+        # the floating-point step between the user's doubles and the integer grid: scaling = unit / precision, lround, the stored
+        # UNITS reals, factor * k on load, second-cycle stability - written integers and re-loaded doubles against coq/GridRound.v
+        {"harness": "grid_round", "driver": "grid_round", "extracted": ["grid_round"], "extract_file": "Extract_GridRound", "module": "checks.grid_round", "kinds": "gw,gr", "thorough_seeds": 1},
         {"harness": "c07_flexpath", "kinds": "gds,crash", "thorough_seeds": 1},
         {"harness": "c08_robustpath", "kinds": "gds,crash", "thorough_seeds": 1},
     ],
